@@ -808,9 +808,74 @@ def replay_lifecycle_search(p):
                 break
     if not problems:
         problems = _confusable_text_search()
+    if not problems:
+        problems = _vocabulary_name_search()
     return {"reproduced": bool(problems), "expected": "every history conforms to the model", "observed": problems[0] if problems else
             "no misbehaving history up to %d recompiles (one evaluator) / 3 operations on two evaluators / confusable-text "
             "round trips" % max_len}
+
+
+def _vocabulary_name_search():
+    """experiments NAMED like the identifiers the generated code itself resolves (harvested from the generator's output:
+    map, str, partial, ...) compiled before / after ordinary ones on the same evaluator and next to a bystander: a namespace
+    that survives from one compile to the next shows up here"""
+    import contextlib
+    import io
+    from pyab_experiment.experiment_evaluator import ExperimentEvaluator
+    try:
+        from vf.props.C07 import generated_vocabulary
+        names = generated_vocabulary()
+    except Exception:
+        names = ["map", "str", "partial", "deterministic_choice", "ExperimentConditionalFailedError", "kwargs", "join"]
+    quiet = lambda: contextlib.redirect_stdout(io.StringIO())
+    ids = ["u%d" % i for i in range(16)] + [1, 2.5, None]
+    plain = {"P": 'def checkout { salt: "s" splitters: uid return "A" weighted 1, "B" weighted 1, "C" weighted 1 }',
+             "Q": 'def other { splitters: uid if uid == 1 { return "x" weighted 1 } else { return "y" weighted 1, "z" weighted 2 } }'}
+    named = {}
+    for n in names:
+        named["N:" + n] = 'def %s { if f == 1 { return "n1" weighted 1 } else { return "n2" weighted 1 } }' % n
+        named["S:" + n] = 'def %s { splitters: uid return "m1" weighted 2, "m2" weighted 1 }' % n
+    texts = dict(plain, **named)
+
+    def behaviour(ev, key):
+        out = []
+        for i in ids:
+            try:
+                kw = {"uid": i}
+                if key.startswith("N:"):
+                    kw = {"f": 1 if i == 1 else 0}
+                v = ev(**kw)
+                out.append((type(v).__name__, repr(v)))
+            except Exception as e:
+                out.append(("raised", type(e).__name__))
+        return out
+    fresh = {}
+    for k, t in texts.items():
+        try:
+            with quiet():
+                ev = ExperimentEvaluator(t)
+            fresh[k] = behaviour(ev, k)
+            if k.startswith("N:") and any(x[1] in ("'n1'", "'n2'") for x in fresh[k]) is False:
+                fresh[k] = fresh[k]
+        except Exception:
+            fresh[k] = None
+    usable = [k for k in texts if fresh[k] is not None and not all(x[0] == "raised" for x in fresh[k])]
+    for first in usable:
+        for second in usable:
+            if first == second or (first in plain and second in plain):
+                continue
+            try:
+                with quiet():
+                    ev = ExperimentEvaluator(texts[first])
+                    by = ExperimentEvaluator(plain["P"])
+                    ev.recompile(texts[second])
+            except Exception as e:
+                return ["new(%s) -> recompile(%s): raised %s although both texts compile on a fresh evaluator" % (first, second, type(e).__name__)]
+            if behaviour(ev, second) != fresh[second]:
+                return ["new(%s) -> recompile(%s): behaves unlike a fresh evaluator of %s" % (first, second, second)]
+            if behaviour(by, "P") != fresh["P"]:
+                return ["new(%s) -> recompile(%s): a bystander evaluator changed" % (first, second)]
+    return []
 
 
 def confusable_texts():
